@@ -5,8 +5,16 @@
 Environment events: a task sends a message; the asyncio transport reports its send buffer full
 (`pause`) - which it may also do *inside* a `write()` (the `flags` consumed one per write) - or
 drained (`resume`); the connection is lost; virtual time advances (the `timeout_after(
-max_send_delay)` timers of blocked senders fire).  Each event is followed by running every woken
-sender to quiescence.
+max_send_delay)` timers of blocked senders fire); the task that is sending a message is cancelled
+from outside (`cancel`); somebody closes the session gracefully (`gclose`: `session.close()` ->
+`transport.close()` -> asyncio `close()`), which makes `is_closing()` true at once but delivers
+`connection_lost` only when the transport's send buffer is empty - with unsent data and a stalled
+peer that is never, so `closing` (is_closing()) and `lost` (connection_lost delivered) are two
+flags.  Each event is followed by running every woken sender to quiescence.
+
+A message is an id: its size is abstracted, `write()` hands the framed bytes to the asyncio
+transport in ONE call with no suspension point between framing and that call (a source fact, see
+`facts_write_atomic`, and the stream-level oracle of the harness).
 
 `fixed = true`: `write()` re-checks the event in a loop (the tree as repaired for F14);
 `fixed = false`: the pinned single `await self._can_send.wait()`.
@@ -31,6 +39,8 @@ inductive Obs where
   | blocked (sender msg : Nat)
   | lost
   | invalid
+  /-- the sending task was cancelled from outside while blocked: it ends with CancelledError -/
+  | cancelled (sender msg : Nat)
   deriving Repr, DecidableEq
 
 structure T where
@@ -40,6 +50,8 @@ structure T where
   canSend : Bool := true
   /-- `is_closing()`: the asyncio transport is closing/closed -/
   closing : Bool := false
+  /-- `connection_lost` has been delivered to the protocol (implies `closing`) -/
+  lost : Bool := false
   reading : Bool := true
   /-- the asyncio transport's own `_protocol_paused` flag: it calls `pause_writing` /
       `resume_writing` only on transitions -/
@@ -59,6 +71,12 @@ inductive Event where
   | resume (flags : List Bool)
   | lost
   | advance (dt : Nat)
+  /-- the task sending `msg` is cancelled by somebody else -/
+  | cancel (msg : Nat)
+  /-- graceful close; `pendingData`: the peer has not consumed what was written so far (so, if
+      anything was written, the transport still holds unsent data and the loss is not delivered
+      until it drains / the link drops / somebody aborts) -/
+  | gclose (pendingData : Bool)
   deriving Repr, DecidableEq
 
 /-- the transport's send buffer passes the high-water mark: `pause_writing()` (once) -/
@@ -97,8 +115,8 @@ def T.wakeAll (t : T) : List Writer → List Bool → T × List Obs
 /-- `connection_lost`: `_can_send.set()` releases every blocked sender; they find the transport
 closing and return without writing -/
 def T.connectionLost (t : T) : T × List Obs :=
-  ((T.wakeAll { t with closing := true, canSend := true, blocked := [] } t.blocked []).1,
-   Obs.lost :: (T.wakeAll { t with closing := true, canSend := true, blocked := [] } t.blocked []).2)
+  ((T.wakeAll { t with closing := true, lost := true, canSend := true, blocked := [] } t.blocked []).1,
+   Obs.lost :: (T.wakeAll { t with closing := true, lost := true, canSend := true, blocked := [] } t.blocked []).2)
 
 /-- the earliest deadline among the blocked senders -/
 def earliest : List Writer → Option Int
@@ -112,8 +130,8 @@ def T.atDeadline (t : T) (d : Int) : T :=
   { t with now := d, blocked := t.blocked.filter (·.deadline != d) }
 
 /-- timers: every blocked sender whose deadline is the earliest one `≤ limit` times out
-(TaskTimeout -> abort -> raise); the abort closes the transport and `connection_lost` releases
-the others -/
+(TaskTimeout -> abort -> raise) - unconditionally, also while a graceful close is pending; the
+abort closes the transport (discarding unsent data) and `connection_lost` releases the others -/
 def T.fire (t : T) (limit : Int) : T × List Obs :=
   match earliest t.blocked with
   | none => ({ t with now := limit }, [])
@@ -147,8 +165,21 @@ def step (t : T) : Event → T × List Obs
     else if t.canSend then ({ t with tPaused := false }, [])
     else ((t.resumed.wakeAll t.blocked flags).1,
           Obs.resumeReading :: (t.resumed.wakeAll t.blocked flags).2)
-  | .lost => if t.closing then (t, []) else t.connectionLost
+  | .lost => if t.lost then (t, []) else t.connectionLost
   | .advance dt => t.fire (t.now + dt)
+  | .cancel m =>
+    -- CancelledError is raised at `await self._can_send.wait()`; it passes through
+    -- `timeout_after` (whose timer dies with it) and `_send_message` unchanged; a task that is
+    -- not blocked has finished at every quiescent point: cancelling it does nothing
+    match t.blocked.find? (·.msg == m) with
+    | none => (t, [])
+    | some w => ({ t with blocked := t.blocked.filter (·.msg != m) }, [Obs.cancelled w.sender m])
+  | .gclose pending =>
+    if t.lost then (t, [])
+    else if pending && !t.wire.isEmpty then
+      -- asyncio `close()` with unsent data: closing now, `connection_lost` once it has drained
+      ({ t with closing := true }, [])
+    else t.connectionLost
 
 def run (t : T) : List Event → T × List (List Obs)
   | [] => (t, [])
